@@ -106,6 +106,12 @@ def worker_shape(fn):
     return norm(open_expr, roles), out, ctx_items, xprog(body, roles)
 
 
+# the offset a transfer worker reads: the one the dispatcher handed to its command (F14 repair).
+# A worker that reads conn.restart_offset itself (the pre-F14 source) is NOT classified: its
+# statements come out as XOther / XSOther and the program obligations fail.
+OFFSET_EXPR = "conn.transfer_offset"
+
+
 def _role_call(node, method):
     """`await <Name>.<method>(args)` as an expression statement -> (role name, args) or None"""
     if not (isinstance(node, ast.Expr) and isinstance(node.value, ast.Await)):
@@ -120,7 +126,7 @@ def _role_call(node, method):
 def xsimple(st, roles, item):
     """one simple statement -> Coq term of type xsimple"""
     r = _role_call(st, "seek")
-    if r and r[0] in roles and len(r[1]) == 1 and norm(r[1][0], roles) == "conn.restart_offset":
+    if r and r[0] in roles and len(r[1]) == 1 and norm(r[1][0], roles) == OFFSET_EXPR:
         return f"XSeek {S(roles[r[0]])}"
     r = _role_call(st, "write")
     if r and r[0] in roles and item is not None and len(r[1]) == 1 and isinstance(r[1][0], ast.Name) and r[1][0].id == item:
@@ -135,7 +141,7 @@ def xprog(body, roles):
     """statement list -> Coq term of type list xstmt (fail closed: XOther carries the text)"""
     out = []
     for st in body:
-        if isinstance(st, ast.If) and not st.orelse and norm(st.test, roles) == "conn.restart_offset":
+        if isinstance(st, ast.If) and not st.orelse and norm(st.test, roles) == OFFSET_EXPR:
             out.append("XIfOffset [" + "; ".join(xsimple(x, roles, None) for x in st.body) + "]")
         elif (
             isinstance(st, ast.AsyncFor)
@@ -193,29 +199,56 @@ def client_prog(fn, what, stream_method):
     raise Unclassified(f"{what}: file branch with an async with not found")
 
 
+def _assigns_attr(st, attr):
+    return isinstance(st, ast.Assign) and any(isinstance(t, ast.Attribute) and t.attr == attr for t in st.targets)
+
+
 def dispatcher_reset(fn):
-    """the statement list that contains `connection.restart_offset = 0` under `if cmd not in (...)`:
-    normalised statements of that block up to and including the guard"""
+    """the statement list of the dispatcher in which connection.restart_offset is cleared: normalised
+    statements of that block up to and including the LAST statement that touches restart_offset /
+    transfer_offset.  Both the repaired shape (hand-over `if cmd in (..): transfer_offset = restart_offset`
+    followed by an unconditional clear) and the pre-F14 shape (`if cmd not in (..): restart_offset = 0`)
+    are printed; only the repaired one equals the expected list of the model."""
+
+    def touches(st):
+        return any(_assigns_attr(n, "restart_offset") or _assigns_attr(n, "transfer_offset") for n in ast.walk(st))
+
+    def simple_if(st):
+        return isinstance(st, ast.If) and not any(
+            isinstance(x, (ast.If, ast.Try, ast.While, ast.For, ast.AsyncFor, ast.With, ast.AsyncWith)) for x in st.body + st.orelse
+        ) and touches(st)
+
+    found = []
+    inner = set()  # simple guards already printed as one statement of their enclosing block
     for n in ast.walk(fn):
+        if id(n) in inner:
+            continue
         for field in ("body", "orelse"):
             block = getattr(n, field, None)
             if not isinstance(block, list):
                 continue
-            for i, st in enumerate(block):
-                if (
-                    isinstance(st, ast.If)
-                    and isinstance(st.test, ast.Compare)
-                    and len(st.test.ops) == 1
-                    and isinstance(st.test.ops[0], ast.NotIn)
-                    and any(
-                        isinstance(a, ast.Assign)
-                        and isinstance(a.targets[0], ast.Attribute)
-                        and a.targets[0].attr == "restart_offset"
-                        for a in st.body
-                    )
-                ):
-                    return [norm(x, {"connection": "conn"}) for x in block[: i + 1]]
-    raise Unclassified("dispatcher: restart_offset reset not found")
+            idx = [i for i, st in enumerate(block) if _assigns_attr(st, "restart_offset") or _assigns_attr(st, "transfer_offset") or simple_if(st)]
+            for i in idx:
+                if isinstance(block[i], ast.If):
+                    inner.add(id(block[i]))
+            if idx:
+                found.append([norm(x, {"connection": "conn"}) for x in block[: idx[-1] + 1]])
+    if len(found) != 1:
+        raise Unclassified(f"dispatcher: expected exactly one block that assigns restart_offset / transfer_offset, found {len(found)}")
+    return found[0]
+
+
+def connection_offset_init(fn):
+    """the restart_offset= / transfer_offset= keyword arguments of the Connection(...) call in the dispatcher"""
+    out = []
+    for n in ast.walk(fn):
+        if isinstance(n, ast.Call) and norm(n.func).endswith("Connection"):
+            for k in n.keywords:
+                if k.arg in ("restart_offset", "transfer_offset"):
+                    out.append(f"{k.arg}={norm(k.value)}")
+    if not out:
+        raise Unclassified("dispatcher: Connection(...) with restart_offset= not found")
+    return out
 
 
 def offset_assignments(fn):
@@ -226,7 +259,7 @@ def offset_assignments(fn):
         for st in block:
             if isinstance(st, ast.If):
                 walk(st.body, guard + [norm(st.test)])
-                walk(st.orelse, guard + ["not " + norm(st.test)])
+                walk(st.orelse, guard + ["not (" + norm(st.test) + ")"])
             elif isinstance(st, ast.Assign) and any(isinstance(t, ast.Attribute) and t.attr == "restart_offset" for t in st.targets):
                 out.append(" and ".join(guard or ["always"]) + " => " + norm(st, {"connection": "conn"}))
             elif isinstance(st, (ast.For, ast.While, ast.AsyncFor, ast.With, ast.AsyncWith, ast.Try)):
@@ -387,6 +420,7 @@ def generate(src_dir):
         ("xf_retr_open", S(retr_open)),
         ("xf_rest_body", slist(rest_body)),
         ("xf_reset_stmt", slist(reset)),
+        ("xf_offset_init", slist(connection_offset_init(disp))),
         ("xf_backend_wiring", slist(wiring)),
         ("xf_nursery_call", slist(stmts(find_method(nursery, "__call__").body))),
         ("xf_iter_anext", slist(anext)),
